@@ -416,10 +416,11 @@ func synthImage(rng *rand.Rand, idx int) ([]byte, string, string) {
 	}
 	var img []byte
 	outline := ""
-	for i, v := range fvs {
+	for _, v := range fvs {
 		outline += v.outline() + " "
-		if i > 0 || rng.Intn(2) == 0 {
-			// padding between the volumes: erased flash or data that is no volume
+		if rng.Intn(2) == 0 {
+			// padding in front of / between the volumes: erased flash or data that is no
+			// volume; none: the volume starts where its neighbour ends
 			c := byte(0xFF)
 			if rng.Intn(2) == 0 {
 				c = byte(rng.Intn(0x40))
